@@ -180,21 +180,38 @@ type FakeProxy struct {
 	Conn    *websocket.Conn // proxy side
 	EP      *sniproxy.Endpoint
 	Replies chan []byte // reply frames written by the endpoint
+	hang    chan struct{}
 }
 
 // NewFakeProxy starts a websocket server and lets a real endpoint (legacy mode) dial it.
-func NewFakeProxy() (*FakeProxy, error) {
+func NewFakeProxy() (*FakeProxy, error) { return NewFakeProxyOpt(&sniproxy.Options{}, false) }
+
+// NewFakeProxyOpt: with tunnel options; ownDialer makes the endpoint use a caller-supplied websocket
+// dialer.  Side-connection handshakes (?side=…) are never answered by this proxy.
+func NewFakeProxyOpt(opt *sniproxy.Options, ownDialer bool) (*FakeProxy, error) {
 	p := &FakeProxy{connCh: make(chan *websocket.Conn, 1), Replies: make(chan []byte, 1024)}
 	up := &websocket.Upgrader{ReadBufferSize: 64 << 10, WriteBufferSize: 64 << 10}
+	hang := make(chan struct{})
+	p.hang = hang
 	p.srv = httptest.NewServer(http.HandlerFunc(func(w http.ResponseWriter, r *http.Request) {
+		if r.URL.Query().Get("side") != "" {
+			select {
+			case <-hang:
+			case <-r.Context().Done():
+			}
+			return
+		}
 		c, err := up.Upgrade(w, r, nil)
 		if err != nil {
 			return
 		}
 		p.connCh <- c
 	}))
-	ep, err := sniproxy.Dial(context.Background(), &sniproxy.StaticRouter{Host: strings.TrimPrefix(p.srv.URL, "http://")},
-		&sniproxy.DialOption{WithoutTLS: true, TunnelOptions: &sniproxy.Options{}})
+	dopt := &sniproxy.DialOption{WithoutTLS: true, TunnelOptions: opt}
+	if ownDialer {
+		dopt.Dialer = &websocket.Dialer{ReadBufferSize: 64 << 10, WriteBufferSize: 64 << 10}
+	}
+	ep, err := sniproxy.Dial(context.Background(), &sniproxy.StaticRouter{Host: strings.TrimPrefix(p.srv.URL, "http://")}, dopt)
 	if err != nil {
 		p.srv.Close()
 		return nil, err
@@ -235,6 +252,11 @@ func (p *FakeProxy) NextReply(d time.Duration) ([]byte, bool) {
 
 // Close releases the server.
 func (p *FakeProxy) Close() {
+	select {
+	case <-p.hang:
+	default:
+		close(p.hang)
+	}
 	p.Conn.UnderlyingConn().Close()
 	p.srv.CloseClientConnections()
 	go p.srv.Close()
